@@ -130,6 +130,7 @@ class C06(ChannelCheck):
 class C07(ChannelCheck):
     pid = "C07"
     prop_module = "SigHook.Props.C07"
+    extra_modules = ("SigHook.Props.Packed", "SigHook.Props.C07b")
 
 
 class C08(ChannelCheck):
